@@ -71,7 +71,7 @@ pub fn program(rng: &mut StdRng, family: usize) -> (&'static str, String) {
         23 => ("array-of-fb", format!(
             "FUNCTION_BLOCK Cell\nVAR_INPUT x : INT; END_VAR\nVAR_OUTPUT y : INT; END_VAR\ny := y + x;\nEND_FUNCTION_BLOCK\nPROGRAM P\nVAR cells : ARRAY[0..2] OF Cell; k : INT := {}; s : INT; END_VAR\ncells[k](x := INT#1);\ns := cells[0].y + cells[1].y + cells[2].y;\nk := k + INT#1;\nEND_PROGRAM\n", d(rng))),
         24 => ("en-eno", format!(
-            "FUNCTION Work : INT\nVAR_INPUT EN : BOOL; a : INT; END_VAR\nVAR_OUTPUT ENO : BOOL; END_VAR\nWork := INT#100 / a;\nEND_FUNCTION\nFUNCTION Outer : INT\nVAR_INPUT n : INT; END_VAR\nVAR v : INT; ok : BOOL; END_VAR\nv := n + INT#1;\nOuter := Work(EN := n > INT#1, a := n, ENO => ok);\nv := v + Outer;\nIF NOT ok THEN v := v + n; END_IF;\nOuter := v;\nEND_FUNCTION\nFUNCTION_BLOCK Holder\nVAR_TEMP tmp : INT; END_VAR\nVAR keep : INT; ok : BOOL; END_VAR\nMETHOD PUBLIC Run : INT\nVAR_INPUT n : INT; END_VAR\nVAR loc : INT; END_VAR\nloc := n;\nRun := Work(EN := n < INT#0, a := n, ENO => ok);\nloc := loc + Run;\nRun := loc;\nEND_METHOD\ntmp := Work(EN := keep > INT#2, a := keep, ENO => ok);\nkeep := keep + tmp + INT#1;\nEND_FUNCTION_BLOCK\nPROGRAM P\nVAR y : INT; k : INT := {}; h : Holder; END_VAR\ny := Outer(n := k);\nh();\ny := y + h.Run(n := k);\nk := k - INT#1;\nEND_PROGRAM\n", i(rng))),
+            "FUNCTION Work : INT\nVAR_INPUT EN : BOOL; a : INT; END_VAR\nVAR_OUTPUT ENO : BOOL; END_VAR\nWork := INT#100 / a;\nEND_FUNCTION\nFUNCTION Outer : INT\nVAR_INPUT n : INT; END_VAR\nVAR v : INT; ok : BOOL; END_VAR\nv := n + INT#1;\nOuter := Work(EN := n > INT#1, a := n, ENO => ok);\nv := v + Outer;\nIF NOT ok THEN v := v + n; END_IF;\nOuter := v;\nEND_FUNCTION\nFUNCTION_BLOCK Holder\nVAR_TEMP tmp : INT; END_VAR\nVAR keep : INT; ok : BOOL; END_VAR\nMETHOD PUBLIC Run : INT\nVAR_INPUT n : INT; END_VAR\nVAR loc : INT; END_VAR\nloc := n;\nRun := Work(EN := n < INT#0, a := n, ENO => ok);\nloc := loc + Run;\nRun := loc;\nEND_METHOD\ntmp := Work(EN := keep > INT#2, a := keep, ENO => ok);\nkeep := keep + tmp + INT#1;\nEND_FUNCTION_BLOCK\nPROGRAM P\nVAR y1 : INT; y2 : INT; e1 : INT; e2 : INT; k : INT := {}; h : Holder; selfcheck : BOOL := TRUE; END_VAR\ny1 := Outer(n := k);\nh();\ny2 := h.Run(n := k);\nIF k > INT#1 THEN e1 := k + INT#1 + INT#100 / k; ELSE e1 := k + INT#1 + k; END_IF;\nIF k < INT#0 THEN e2 := k + INT#100 / k; ELSE e2 := k; END_IF;\nselfcheck := (y1 = e1) AND (y2 = e2);\nk := k - INT#1;\nEND_PROGRAM\n", i(rng))),
         _ => ("deep-expression", {
             let n = [10usize, 200, 2000][rng.gen_range(0..3)];
             let mut e = String::from("x");
@@ -108,6 +108,12 @@ pub fn child(args: &[String]) -> i32 {
             res = match &r { Err(_) => "Panic".to_string(), Ok(c) => if c.errors.is_empty() { "ok".into() } else { format!("{:?}", c.errors[0]).split(|c: char| !c.is_alphanumeric()).next().unwrap().to_string() } };
             frames = h.runtime().storage().frames().len();
             if res != "ok" { break; }
+            // a program may carry its own oracle: `selfcheck` compares what the feature under test produced with
+            // the same quantity computed without it (C02)
+            if let Some(trust_runtime::value::Value::Bool(false)) = h.get_output("selfcheck") {
+                res = "SelfCheckFailed".into();
+                break;
+            }
         }
         println!("END {k} {family} outcome {res} {frames}");
     }
@@ -171,6 +177,11 @@ pub fn one(args: &[String]) -> i32 {
         h.runtime_mut().set_execution_deadline(Some(std::time::Instant::now() + std::time::Duration::from_millis(300)));
         let r = std::panic::catch_unwind(std::panic::AssertUnwindSafe(|| h.cycle()));
         match &r { Err(_) => println!("cycle {c}: Panic"), Ok(cy) => println!("cycle {c}: {:?} frames={}", cy.errors, h.runtime().storage().frames().len()) }
+        if let Some(names) = arg(args, "--show") {
+            for n in names.split(',') {
+                println!("   {n} = {:?}", h.get_output(n));
+            }
+        }
     }
     0
 }
